@@ -164,6 +164,60 @@ BrightBad(p, o) ==
 Single(o) == RangeBad(o.tl) \cup ZeroBad(o) \cup ModBad(o)
 Pair(p, o) == MonoBad(p, o) \cup BrightBad(p, o)
 
+---------------------------------------------------------------------------
+(* Part 3: a chip channel and the notes that hold it.
+   With more notes than chip channels OPNMIDIplay lets several notes of ONE instrument hold the same chip
+   channel (prepareChipChannelForNewNote keeps a same-instrument user younger than 70 ms, killOrEvacuate
+   moves a note over to such a channel).  A chip channel has one set of TL registers and sounds one note:
+   the one it was keyed on for last, the OWNER.  Whenever the channel is keyed on - the NoteOn itself, the
+   turn the automatic arpeggio gives to the next holder on every tick (updateArpeggio: noteUpdate with
+   Upd_Pitch | Upd_Volume | Upd_Pan), a note that took the channel from another one - the registers have to
+   hold the levels of THAT note: its velocity and the CC7 / CC11 / CC74 of ITS MIDI channel.
+   G = the global controls [vm, smod, frb, mv]; a holder h = the note's own part of an observation
+   [perc, alg, itl, veloff, soft, v, vol, expr, b]. *)
+HObs(G, h, tl) == [vm |-> G.vm, smod |-> G.smod, frb |-> G.frb, mv |-> G.mv, perc |-> h.perc, alg |-> h.alg, itl |-> h.itl,
+                   veloff |-> h.veloff, soft |-> h.soft, v |-> h.v, vol |-> h.vol, expr |-> h.expr, b |-> h.b, tl |-> tl]
+LevelsOf(G, h) == ModelTL(HObs(G, h, <<>>))
+
+\* users: the holders in the order they joined; reg: the TL registers; own: the holder keyed last; ctr: m_arpeggioCounter;
+\* lev: the holder the registers were levelled for last (OpnChannel::levelled_for of /repo 5cd89c0; 0 = nobody who still holds it)
+ChanEmpty == [users |-> <<>>, reg |-> <<0, 0, 0, 0>>, own |-> 0, lev |-> 0, ctr |-> 0]
+\* NoteOn into the channel (Upd_All): patch upload, levels of the new note, key-on
+ChanJoin(G, C, h) == [C EXCEPT !.users = Append(@, h), !.reg = LevelsOf(G, h), !.own = Len(C.users) + 1, !.lev = Len(C.users) + 1]
+\* a controller of holder i's MIDI channel changes (noteUpdateAll(Upd_Volume)): registers rewritten for it, NO key-on
+ChanCtl(G, C, i, h2) == [C EXCEPT !.users[i] = h2, !.reg = LevelsOf(G, h2), !.lev = i]
+\* the master volume changes: every holder is re-levelled in turn, the last one's levels stay
+ChanRelevelAll(G, C) == IF C.users = <<>> THEN C ELSE [C EXCEPT !.reg = LevelsOf(G, C.users[Len(C.users)]), !.lev = Len(C.users)]
+\* holder i is released (no other write while somebody else still holds the channel)
+DropIdx(x, i) == IF x = i THEN 0 ELSE IF x > i THEN x - 1 ELSE x
+ChanLeave(C, i) == [C EXCEPT !.users = SubSeq(@, 1, i - 1) \o SubSeq(@, i + 1, Len(@)), !.own = DropIdx(@, i), !.lev = DropIdx(@, i)]
+(* A key-on for holder i (noteUpdate with Upd_Pitch).  maskVolume = the caller's mask contains Upd_Volume.  takeover = the
+   repair /repo 5cd89c0: a note that keys on a chip channel whose levels were written for ANOTHER note (one it shares or shared
+   the channel with) does the Upd_Pan / Upd_Volume steps first - a re-key by M of registers levelled for N # M re-levels.
+   As written before (takeover = FALSE) a pitch bend, vibrato or glide step (mask Upd_Pitch alone) keyed the bent note with the
+   levels of whatever note was levelled last, also after that note had left the channel. *)
+ChanKeyFor(G, C, i, maskVolume, takeover) ==
+  LET relevel == maskVolume \/ (takeover /\ C.lev # i)
+  IN [C EXCEPT !.own = i, !.reg = IF relevel THEN LevelsOf(G, C.users[i]) ELSE @, !.lev = IF relevel THEN i ELSE @]
+\* a re-pitch of holder i: pitch bend (every note of the MIDI channel), vibrato, glide
+ChanRepitch(G, C, i, takeover) == ChanKeyFor(G, C, i, FALSE, takeover)
+(* One tick of updateArpeggio for a channel with n >= 2 holders: the counter advances, the holder number
+   (ctr \div rate) % n takes its turn (rate 3 for two holders, 2 for three, 1 from four on) with the mask
+   Upd_Pitch | Upd_Volume | Upd_Pan (maskVolume = TRUE).  With the take-over rule the Upd_Volume bit is redundant for what a
+   key-on finds in the registers (the hand-over re-levels anyway); without either the new owner is keyed with stale levels. *)
+ArpRate(n) == IF n >= 4 THEN 1 ELSE IF n = 3 THEN 2 ELSE 3
+ArpTurn(ctr, n) == ((ctr \div ArpRate(n)) % n) + 1
+ChanTick(G, C, maskVolume, takeover) ==
+  LET n == Len(C.users)  c1 == C.ctr + 1
+  IN IF n < 2 THEN [C EXCEPT !.ctr = c1] ELSE [ChanKeyFor(G, C, ArpTurn(c1, n), maskVolume, takeover) EXCEPT !.ctr = c1]
+
+\* what is heard after a key-on: the owner's controls with the registers in force
+KeyOnObs(G, C) == HObs(G, C.users[C.own], C.reg)
+(* C11 at a key-on: the predicates on single observations for the owner (range, zero => carriers silent,
+   modulators untouched); `stale` (model level only) = the registers are not the owner's levels. *)
+KeyOnBad(o) == Single(o)
+KeyOnStale(G, C) == IF C.own # 0 /\ C.reg # LevelsOf(G, C.users[C.own]) THEN {"stale"} ELSE {}
+
 Brief(o) == [vm |-> o.vm, alg |-> o.alg, itl |-> o.itl, sm |-> o.smod, fr |-> o.frb, pc |-> o.perc, so |-> o.soft, vo |-> o.veloff,
              v |-> o.v, c |-> o.vol, e |-> o.expr, m |-> o.mv, b |-> o.b, tl |-> o.tl]
 =============================================================================
